@@ -25,9 +25,11 @@ HdrCondCodes == Hdr.codes
 VARIABLES mem, ro, impl, l
 vars == <<mem, ro, impl, l>>
 
+\* impl: [state, via, check, created] of the trace being validated
+
 OpOf(e) == [op |-> e.op, loc |-> e.loc, id |-> e.id, rid |-> e.rid, val |-> Norm(e.val),
             inh |-> e.inh, wk |-> e.wk, rk |-> e.rk, now |-> e.now, flag |-> e.flag,
-            names |-> Rng(e.names)]
+            names |-> Rng(e.names), hooked |-> impl.via = "system"]
 
 NormFound(f) == {[id |-> f[i].id, bss |-> NormBs(f[i].bss), body |-> Norm(f[i].body)] : i \in DOMAIN f}
 NoBody(F) == {[id |-> x.id, bss |-> x.bss] : x \in F}
@@ -71,23 +73,52 @@ FreshOk(op, lr) ==
   (op.op \in {"AddFact", "AddRule"} /\ op.id = "" /\ lr.c = "ok" /\ BangKeys(op.val) = {})
      => op.rid \notin DOMAIN mem[op.loc]
 
-Init == l = 2 /\ mem = <<>> /\ ro = <<>> /\ impl = ""
+NoImpl == [state |-> "", via |-> "", check |-> FALSE, created |-> {}]
+Init == l = 2 /\ mem = <<>> /\ ro = <<>> /\ impl = NoImpl
 
 Reset(e) ==
   /\ mem' = [a \in Rng(e.locs) |-> <<>>]
   /\ ro' = [a \in Rng(e.locs) |-> FALSE]
-  /\ impl' = e.state
+  /\ impl' = [state |-> e.state, via |-> e.via, check |-> e.check, created |-> {}]
 
-\* the outcomes the specification allows that agree with the logged line
-Explained(e) ==
+\* the outcomes the specification allows whose response agrees with the logged line
+RespExplained(e) ==
   LET op == OpOf(e)
       disk == [a \in DOMAIN mem |-> Rng(e.disk[a])]
       G == [a \in DOMAIN mem |-> ExpiredIds(mem[a], op.now) \ disk[a]]
       must == MustPurge(mem, op)
   IN IF (\A a \in DOMAIN mem : must[a] \subseteq G[a]) /\ FreshOk(op, e.res)
-     THEN {o \in Step(mem, ro, op, G) :
-             RespMatch(op, o.resp, e.res) /\ \A a \in DOMAIN mem : DOMAIN o.mem[a] = disk[a]}
+     THEN {o \in Step(mem, ro, op, G) : RespMatch(op, o.resp, e.res)}
      ELSE {}
+DiskOk(m, e) == \A a \in DOMAIN mem : DOMAIN m[a] = Rng(e.disk[a])
+\* ... and whose state agrees with the logged storage content
+Explained(e) == {o \in RespExplained(e) : DiskOk(o.mem, e)}
+
+\* sys.System: with existence checking on, a location that was never created
+\* answers not-found to every request and is not created by it; CreateLocation
+\* stores the marker property (its timestamp value is taken from the trace).
+Uncreated(e) == impl.check /\ e.op # "CreateLocation"
+                /\ PropId("", "createdAt") \notin DOMAIN mem[e.loc]
+SysOutcomes(e) ==
+  LET disk == [a \in DOMAIN mem |-> Rng(e.disk[a])]
+  IN IF e.op = "CreateLocation"
+     THEN LET marker == PropId("", "createdAt")
+              m2 == IF marker \in DOMAIN mem[e.loc] THEN mem
+                    ELSE SetLoc(mem, e.loc, PutItem(mem[e.loc], marker, Item(Norm(e.val), 0)))
+          IN IF e.res.c = "ok" /\ (\A a \in DOMAIN mem : DOMAIN m2[a] = disk[a])
+                /\ Norm(e.val) = PropFact("", "createdAt", Norm(e.val).m["!createdAt"])
+             THEN {[mem |-> m2, ro |-> ro, created |-> impl.created \cup {e.loc}]} ELSE {}
+     ELSE IF e.op = "Clear" /\ ~Uncreated(e)
+     THEN \* clearing a created location keeps it created (a fresh marker)
+          LET marker == PropId("", "createdAt")
+              withMarker(o) == IF o.resp.c # "ok" THEN o.mem
+                               ELSE SetLoc(o.mem, e.loc, PutItem(o.mem[e.loc], marker, Item(Norm(e.val), 0)))
+          IN {[mem |-> withMarker(o), ro |-> o.ro, created |-> {}] :
+                o \in {x \in RespExplained(e) :
+                         /\ DiskOk(withMarker(x), e)
+                         /\ x.resp.c = "ok" => Norm(e.val) = PropFact("", "createdAt", Norm(e.val).m["!createdAt"])}}
+     ELSE IF e.res.c = "notfound" /\ (\A a \in DOMAIN mem : DOMAIN mem[a] = disk[a])
+          THEN {[mem |-> mem, ro |-> ro, created |-> impl.created]} ELSE {}
 
 \* what the specification expected instead (printed on rejection only)
 Expected(e) ==
@@ -102,20 +133,29 @@ NextReset(i) ==
   THEN CHOOSE j \in (i+1)..Len(Trace) : Trace[j].ev = "reset" /\ \A k \in (i+1)..(j-1) : Trace[k].ev # "reset"
   ELSE Len(Trace) + 1
 
+IsSysLevel(e) == e.op = "CreateLocation" \/ Uncreated(e) \/ (impl.check /\ e.op = "Clear")
+
 Accept(e) ==
+  /\ ~IsSysLevel(e)
   /\ Explained(e) # {}
   /\ \E o \in Explained(e) : mem' = o.mem /\ ro' = o.ro
   /\ l' = l + 1 /\ UNCHANGED impl
+
+AcceptSys(e) ==
+  /\ IsSysLevel(e)
+  /\ \E o \in SysOutcomes(e) : mem' = o.mem /\ ro' = o.ro /\ impl' = [impl EXCEPT !.created = o.created]
+  /\ l' = l + 1
 
 \* outcomes that only a named deviation (a recorded defect) explains
 ExplainedDev(e) ==
   LET op == OpOf(e)
       disk == [a \in DOMAIN mem |-> Rng(e.disk[a])]
       G == [a \in DOMAIN mem |-> ExpiredIds(mem[a], op.now) \ disk[a]]
-  IN {o \in DevStep(mem, ro, op, G, impl) :
+  IN {o \in DevStep(mem, ro, op, G, impl.state) :
         RespMatch(op, o.resp, e.res) /\ \A a \in DOMAIN mem : DOMAIN o.mem[a] = disk[a]}
 
 AcceptDev(e) ==
+  /\ ~IsSysLevel(e)
   /\ Explained(e) = {} /\ ExplainedDev(e) # {}
   /\ \E o \in ExplainedDev(e) : /\ mem' = o.mem /\ ro' = o.ro
                                  /\ TLCSet(3, TLCGet(3) \cup {<<l, o.dev>>})
@@ -123,10 +163,10 @@ AcceptDev(e) ==
 
 \* a line nothing explains: report it and go on with the next trace
 Reject(e) ==
-  /\ Explained(e) = {} /\ ExplainedDev(e) = {}
-  /\ PrintT(<<"REJECT", l, Expected(e)>>)
+  /\ IF IsSysLevel(e) THEN SysOutcomes(e) = {} ELSE Explained(e) = {} /\ ExplainedDev(e) = {}
+  /\ PrintT(<<"REJECT", l, IF IsSysLevel(e) THEN <<"system level", impl>> ELSE Expected(e)>>)
   /\ TLCSet(2, TLCGet(2) \cup {l})
-  /\ mem' = <<>> /\ ro' = <<>> /\ impl' = ""
+  /\ mem' = <<>> /\ ro' = <<>> /\ impl' = NoImpl
   /\ l' = NextReset(l)
 
 Next ==
@@ -134,6 +174,7 @@ Next ==
   /\ \/ Trace[l].ev = "reset" /\ Reset(Trace[l]) /\ l' = l + 1
      \/ Trace[l].ev = "op" /\ Accept(Trace[l])
      \/ Trace[l].ev = "op" /\ AcceptDev(Trace[l])
+     \/ Trace[l].ev = "op" /\ AcceptSys(Trace[l])
      \/ Trace[l].ev = "op" /\ Reject(Trace[l])
 
 Spec == Init /\ [][Next]_vars
